@@ -585,6 +585,13 @@ func ruleReverseProxyFields(c *Ctx, p *Prog, rule string) {
 			}
 			n++
 			_, okf := allowed[f]
+			if f == "ErrorLog" {
+				okf = plainStdLogger(st.Val)
+				if okf {
+					c.OK(rule, "hostProxy:ReverseProxy."+f, p, st.Pos(), "the proxy's error log is a plain logger over the process's standard streams: it neither blocks nor writes the answer")
+					return
+				}
+			}
 			c.Check(rule, "hostProxy:ReverseProxy."+f, p, st.Pos(), okf, "allowed override: "+allowed[f], "ReverseProxy."+f+" is overridden: requests/responses no longer pass the stock single-host director and transport defaults (e.g. a Director that deletes Accept-Encoding makes the transport transparently gunzip every reply, changing body and entity headers of non-HTML responses; Rewrite mode strips X-Forwarded-*)")
 		})
 	}
@@ -1414,4 +1421,30 @@ func rulePollErrorOnlyWhenDrained(c *Ctx, p *Prog, rule string) {
 		}
 	}
 	c.Check(rule, "poll:error-only-when-queue-closed-and-drained", p, f.Pos(), bad == "" && n > 0, "ReadServerMessages returns an error only on the not-ok branch of a receive from serverMessages (queue closed by the reader and empty)", bad+" is not on the not-ok branch of a receive from serverMessages: the session is reported closed while messages received before the backend closed are still queued — they are never delivered")
+}
+
+// plainStdLogger: a *log.Logger over the process's own standard streams —
+// log.New(os.Stderr|os.Stdout|log.Writer(), prefix, flags) or log.Default(): it neither
+// blocks on anything of the module nor writes to a client.
+func plainStdLogger(v ssa.Value) bool {
+	rs := Roots(v)
+	if len(rs) == 0 {
+		return false
+	}
+	for _, r := range rs {
+		if CallResult(r, 0, "log.Default") != nil {
+			continue
+		}
+		nl := CallResult(r, 0, "log.New")
+		if nl == nil {
+			return false
+		}
+		for _, w := range Roots(nl.Call.Args[0]) {
+			pth, _ := AccessPath(w)
+			if pth != "*global:Stderr" && pth != "*global:Stdout" && CallResult(w, 0, "log.Writer") == nil {
+				return false
+			}
+		}
+	}
+	return true
 }
